@@ -661,11 +661,20 @@ func (fc *FnCtx) finish() {
 	// final values of named non-escaping locals (zero where not yet declared)
 	fc.finalVals = map[string]envVar{}
 	for name, allocs := range fc.cellNames {
-		if len(allocs) != 1 || allocs[0].Heap {
+		if len(allocs) != 1 {
 			continue
 		}
 		a := allocs[0]
 		et := a.Type().(*types.Pointer).Elem()
+		if a.Heap {
+			// an address-taken struct local: final(x) is the pointer to it (fields read at the exit heap)
+			if _, isS := isStructType(et); isS {
+				if r, ok := fc.regs[a].(*Term); ok {
+					fc.finalVals[name] = envVar{r, a.Type()}
+				}
+			}
+			continue
+		}
 		val := func(s *State) *Term {
 			if v, ok := s.cells[a]; ok {
 				return v
